@@ -51,6 +51,24 @@ def ob_decrypt(L, comp, c1c3c2):
         for ctx, res in live_paths(paths):
             dom, W, h, fb, ct, d, r = res
             if not result_ok(r):
+                if L >= c1 + 32 + 1 and "ok" in fb and len(fb.get("arg", [])) == c1:
+                    # completeness (the other half of the round trip): a ciphertext of valid length is refused only for an undecodable or
+                    # off-curve C1, an all-zero key stream, or a C3 that does not match
+                    hy = ctx.facts + ctx.pc
+                    kelen = L - c1 - 32
+                    c2o, c3o = (c1 + 32, c1) if c1c3c2 else (c1, L - 32)
+                    ctt = [dom.term(b) for b in ct]
+                    P1 = fb["P"]
+                    S = W.AFF(W.SMUL(P1, d))
+                    x2 = split_terms(W.FROM_MONT(z3.Extract(767, 512, S)), 32)
+                    y2 = split_terms(W.FROM_MONT(z3.Extract(511, 256, S)), 32)
+                    t = kdf_spec(h, x2 + y2, kelen)
+                    mt = [ctt[c2o + i] ^ t[i] for i in range(kelen)]
+                    u = h.spec(x2 + mt + y2)
+                    S1 = W.SMUL(P1, z3.BitVecVal(1, 256))                       # the cofactor check [h]C1 = O with h = 1
+                    bad = z3.Or(z3.Not(fb["ok"]), z3.Not(W.VALID_AFF(W.AFF(P1))), z3.Extract(255, 0, S1) == 0, z3.And([b == 0 for b in t]),
+                                z3.Not(z3.And([u[i] == ctt[c3o + i] for i in range(32)])))
+                    discharge(stats, hy, bad, "decrypt refuses a ciphertext of valid length only for: C1 undecodable, off the curve or [h]C1 = O, all-zero key stream, C3 mismatch", named)
                 continue
             nok += 1
             hy = ctx.facts + ctx.pc
